@@ -280,7 +280,7 @@ Proof.
       * intros (l1 & a' & l2 & E & H1 & H2). destruct l1 as [|c l1]; simpl in E; injection E as -> ->.
         { congruence. }
         destruct (H1 c (or_introl eq_refl)) as [v Hv]. congruence.
-    + exfalso. apply (Hn a); auto.
+    + exfalso. exact (Hn a (or_introl eq_refl) Ea).
 Qed.
 End MapM.
 
@@ -769,9 +769,11 @@ Proof.
   - intros s s' Hok _ (Hlt' & _ & [Hv _] & Hcase).
     destruct Hcase as [(A & B & C & D & _)|[(A & B & C & D)|(A & B & C & D)]].
     + destruct (ray_ok_set_sub s (s_pcur s') Hok Hlt' Hv) as (R1 & R2 & R3 & R4 & _).
-      destruct Hok as (Hc1 & _). unfold ray_ok. rewrite B, D. repeat split; auto; lia.
+      destruct Hok as (Hc1 & _). unfold ray_ok. rewrite B, D.
+      split; [lia|]. split; [exact R1|]. split; [exact R2|]. split; [exact R3|exact R4].
     + destruct (ray_ok_set_sub s (s_pcur s') Hok Hlt' Hv) as (R1 & R2 & R3 & R4 & _).
-      destruct Hok as (Hc1 & _). unfold ray_ok. rewrite B, D. repeat split; auto; lia.
+      destruct Hok as (Hc1 & _). unfold ray_ok. rewrite B, D.
+      split; [lia|]. split; [exact R1|]. split; [exact R2|]. split; [exact R3|exact R4].
     + unfold ray_ok in *. rewrite B, D. exact Hok.
   - (* initially *)
     unfold ray_ok. rewrite Hc0, Hr0.
@@ -785,7 +787,8 @@ Proof.
     apply orb_false_elim in Eb. destruct Eb as [Eb _]. apply Z.leb_gt in Eb.
     destruct (ray_ok_set_sub s1 (of_list [zsrc; xsrc]) Hok Eb (vec2_of_list zsrc xsrc))
       as (R1 & R2 & R3 & R4 & R5 & R6).
-    repeat split; auto.
+    split; [exact R1|]. split; [exact R2|]. split; [lia|]. split; [exact R3|]. split; [exact R4|].
+    split; [exact R5|exact R6].
 Qed.
 
 End Thm5.
@@ -871,9 +874,9 @@ Proof.
       destruct (f a) eqn:Ea; simpl in Et; try discriminate.
       * destruct (mapM f t) eqn:Et'; simpl in Et; try discriminate. apply IHt; auto.
         intros; apply Hn'; right; auto.
-      * apply (Hn' a); auto. left; reflexivity.
+      * exact (Hn' a (or_introl eq_refl) Ea).
   - exfalso. cbv beta in Ec. exact (ray2d_core_no_raise _ _ _ _ _ _ _ _ _ _ _ _ _ Ec).
-  - exfalso. apply (Hn i); auto. left; reflexivity.
+  - exfalso. exact (Hn i (or_introl eq_refl) Ec).
 Qed.
 
 Lemma single_not_oof fuel i : core_i fuel i <> OutOfFuel -> single_i fuel i <> OutOfFuel.
